@@ -111,16 +111,21 @@ class MotionCommander:
         :return:
         """
         if self._is_flying:
-            self.down(self._thread.get_height(), velocity)
+            try:
+                height = self._thread.get_height()
+                # Already on the ground: nothing to descend (and no direction to normalize)
+                if height != 0.0:
+                    self.down(height, velocity)
+            finally:
+                # Always end the setpoint stream and stop the motors, also when the descent could not be commanded
+                self._thread.stop()
+                self._thread = None
 
-            self._thread.stop()
-            self._thread = None
-
-            self._cf.commander.send_stop_setpoint()
-            # Stop using low level setpoints and hand responsibility over to the high level commander to
-            # avoid time out when no setpoints are received any more
-            self._cf.commander.send_notify_setpoint_stop()
-            self._is_flying = False
+                self._cf.commander.send_stop_setpoint()
+                # Stop using low level setpoints and hand responsibility over to the high level commander to
+                # avoid time out when no setpoints are received any more
+                self._cf.commander.send_notify_setpoint_stop()
+                self._is_flying = False
 
     def __enter__(self):
         self.take_off()
